@@ -7,7 +7,7 @@
    The main statement holds for every class and every input (no domain restriction since the
    empty-string alias was repaired in /repo 7108448). *)
 From Coq Require Import List String Ascii ZArith Bool.
-From Verif Require Import Regex PyK PyK_strat PyK_alias FieldDecl FieldDeclProofs KeyModel KeyImpl KeyProofs KeyDecl KeyCfg KeyNested.
+From Verif Require Import Regex PyK PyK_strat PyK_alias FieldDecl FieldDeclProofs KeyModel KeyImpl KeyProofs KeyDecl KeyCfg KeyNested KeyRewrite KeyHook KeyDc KeyDcDecl KeyDeep.
 From VerifGen Require Import K4 K5.
 Import ListNotations.
 Open Scope string_scope.
@@ -258,6 +258,112 @@ Example C09_nonvacuous_plain_config :
   /\ impl_from_hier ls None [(KeyS "ax", 1%Z); (KeyS "q", 2%Z)] = Ok (OExtra [KeyS "q"])
   /\ impl_from_hier ls None [(KeyS "x", 1%Z)] = Ok (OInst [("x", Some (KeyS "x", 1%Z))]).
 Proof. repeat split; vm_compute; reflexivity. Qed.
+
+(* ---- dataclass-typed fields at any depth and inside Optional / List / Dict[str, .] ---- *)
+Theorem C09_deep : forall fuel tb k d, deep_impl fuel tb k d = deep_ref fuel tb k d.
+Proof. exact deep_impl_eq_ref. Qed.
+Print Assumptions C09_deep.
+
+Theorem C09_deep_list : forall rd ex fu tb t l,
+  dec rd ex (S fu) tb (TList t) (VL l) = option_map RList (all_some (map (dec rd ex fu tb t) l)).
+Proof. exact list_elementwise. Qed.
+Print Assumptions C09_deep_list.
+
+Theorem C09_deep_map_keys : forall rd ex fu tb t d xs,
+  all_some (map (fun p => dec rd ex fu tb t (snd p)) d) = Some xs ->
+  dec rd ex (S fu) tb (TMap t) (VD d) = Some (RMap (combine (map fst d) xs)).
+Proof. exact map_keys_are_data. Qed.
+Print Assumptions C09_deep_map_keys.
+
+(* N2: r alias "ar", forbid_extra_keys.  N1: q: List[N2] alias "aq".  K: x: Dict[str, N1], allow names.
+   The keys "ar" and "aq" of the outer mapping value are data; inside, each class applies its own rules;
+   one extra key three levels down invalidates K.x *)
+Example C09_nonvacuous_deep :
+  let n2 := mkN (mkC [mkF "r" (Some "ar") None false] [] false true None) [] in
+  let n1 := mkN (mkC [mkF "q" (Some "aq") None false] [] false false None) [("q", TList (TCls 0))] in
+  let k := mkN (mkC [mkF "x" None None false] [] true false None) [("x", TMap (TCls 1))] in
+  deep_ref 10 [n2; n1; k] 2 [(KeyS "x", VD [(KeyS "ar", VD [(KeyS "aq", VL [VD [(KeyS "ar", VZ 1)]; VD [(KeyS "ar", VZ 2)]])])])]
+  = DInst [("x", Some (RMap [(KeyS "ar", RObj [("q", Some (RList [RObj [("r", Some (RZ 1))]; RObj [("r", Some (RZ 2))]]))])]))]
+  /\ deep_impl 10 [n2; n1; k] 2 [(KeyS "x", VD [(KeyS "m", VD [(KeyS "aq", VL [VD [(KeyS "ar", VZ 1); (KeyS "junk", VZ 0)]])])])]
+  = DInvalid "x".
+Proof. split; vm_compute; reflexivity. Qed.
+
+(* ---- arbitrary MROs (diamonds): a model of CPython's dataclass walk and of get_type_hints ---- *)
+
+(* the declaration a class has for a name: its own, else that of the first class of its MRO whose cumulative
+   __dataclass_fields__ has the name *)
+Theorem C09_dc_lookup : forall cums own n,
+  lookup_decl n (dc_process cums own)
+  = match lookup_decl n (rev own) with Some p => Some p | None => first_in cums n end.
+Proof. exact dc_process_lookup. Qed.
+Print Assumptions C09_dc_lookup.
+
+(* for single inheritance and for unrelated bases the walk selects the declarations of KeyModel.collect *)
+Theorem C09_dc_chain : forall ls l n,
+  lookup_decl n (dc_process (chain_cums (rev ls)) (l_decls l)) = lookup_decl n (collect (ls ++ [l])).
+Proof. exact dc_chain_collect. Qed.
+Print Assumptions C09_dc_chain.
+
+Theorem C09_dc_roots : forall ls l n,
+  lookup_decl n (dc_process (roots_cums (rev ls)) (l_decls l)) = lookup_decl n (collect (ls ++ [l])).
+Proof. exact dc_roots_collect. Qed.
+Print Assumptions C09_dc_roots.
+
+(* the translated CodeBuilder.dataclass_fields (K5) on an arbitrary MRO: the alias data of every name is that of
+   the declaration the walk selects *)
+Theorem C09_dataclass_fields_dc :
+  forall (mdf: fld -> kv), (forall f, k_dict_get (mdf f) (KStr "alias") = Ok (enc_ostr (f_meta f))) ->
+  forall (cums: list decls) (own: decls) (extra: list pyclass) (c0: pyclass) nsd ownf,
+  Forall nodup_names cums -> Forall fieldless extra ->
+  sd_get nsd "__dataclass_fields__" = None -> ~ In "__dataclass_fields__" (map dname own) ->
+  (forall n f i, lookup_decl n (rev own) = Some (f, i) ->
+     alias_md (own_result nsd ownf n) = Ok (enc_ostr (f_meta f))) ->
+  exists d,
+    dataclass_fields (KTuple (enc_class c0 :: map enc_class (map (fun c => Some (cum mdf c)) cums ++ extra)))
+                     (KList (map KStr (map dname own))) (enc_namespace nsd ownf)
+    = Ok (KDict (enc_sd d))
+    /\ forall n, alias_md (sd_get d n) = Ok (enc_ostr (decl_alias (dc_process cums own) n)).
+Proof. exact dataclass_fields_dc. Qed.
+Print Assumptions C09_dataclass_fields_dc.
+
+(* diamond K(B, C), B(A), C(A): A.x plain; C re-declares x with metadata alias "cx" and Annotated Alias "cann".
+   K's Field for x is A's (through B: no metadata alias), K's type for x is C's: x is read from "cann" *)
+Example C09_nonvacuous_diamond :
+  let a := mkPC [(mkF "x" None None true, true)] [] in
+  let b := mkPC [(mkF "y" None None true, true)] [0%nat] in
+  let c := mkPC [(mkF "x" (Some "cx") (Some [AAlias "cann"]) true, true)] [0%nat] in
+  let k := mkPC [] [1%nat; 2%nat; 0%nat] in
+  let cl := dc_class [a; b; c; k] 3 default_cfg None in
+  map (alias_of cl) (c_fields cl) = [Some "cann"; None]
+  /\ keymodel cl [(KeyS "cx", 1%Z); (KeyS "cann", 2%Z); (KeyS "x", 3%Z)] = OInst [("x", Some (KeyS "cann", 2%Z)); ("y", None)].
+Proof. split; vm_compute; reflexivity. Qed.
+
+(* ---- __pre_deserialize__: the keys are resolved, and the extra keys found, on the mapping the hook of the
+   nearest class returns ---- *)
+Theorem C09_pre_hook : forall hooks ls discr d,
+  impl_hooked hooks ls discr d = Ok (keymodel (class_of ls discr) (apply_hook (nearest_hook hooks) d)).
+Proof. exact impl_hooked_keymodel. Qed.
+Print Assumptions C09_pre_hook.
+
+Theorem C09_nearest_hook : forall hooks h,
+  nearest_hook (hooks ++ [h]) = match h with Some _ => h | None => nearest_hook hooks end.
+Proof. exact nearest_hook_app. Qed.
+Print Assumptions C09_nearest_hook.
+
+Theorem C09_hook_rename : forall d a b v n,
+  dget d a = Some v -> key_eqb a b = false ->
+  dget (apply_op d (HRename a b)) n = if key_eqb b n then Some v else if key_eqb a n then None else dget d n.
+Proof. exact rename_then_read. Qed.
+Print Assumptions C09_hook_rename.
+
+(* x has alias "ax", forbid_extra_keys; the hook renames the legacy key "old" to "ax" and drops "junk":
+   {"old": 1, "junk": 2} is accepted and x = 1; without the hook both keys are extra *)
+Example C09_nonvacuous_hook :
+  let ls := [mkL [(mkF "x" (Some "ax") None false, true)] (Some (mkCD false false None None (Some true)))] in
+  let h := Some [HRename (KeyS "old") (KeyS "ax"); HDrop (KeyS "junk")] in
+  impl_hooked [h] ls None [(KeyS "old", 1%Z); (KeyS "junk", 2%Z)] = Ok (OInst [("x", Some (KeyS "ax", 1%Z))])
+  /\ impl_hooked [None] ls None [(KeyS "old", 1%Z); (KeyS "junk", 2%Z)] = Ok (OExtra [KeyS "old"; KeyS "junk"]).
+Proof. split; vm_compute; reflexivity. Qed.
 
 (* ---- dataclass-typed fields: the value found under the outer key is decoded by the inner class with the
    inner class's own aliases and options; failures inside surface as InvalidFieldValue of the outer field ---- *)
